@@ -249,6 +249,9 @@ v("ok-la-rmatvec-rewritten", L, "return v - self._left_vecs @ (self._vecs.conj()
 v("la-adjoint-inherits-cached-relatives", L, "            self._adjoint_operator._adjoint_operator = self\n", "            self._adjoint_operator._adjoint_operator = self\n            self._adjoint_operator._conjugate_operator = self._conjugate_operator\n", ["C17", "C06"])
 # --------------------------------------------------------------------------- kpm.py
 KP = "kpm"
+v("kpm-threshold-loosened", KP, "    while residue > atol:\n", "    atol = max(atol, 1e-8 * np.linalg.norm(vector))\n    while residue > atol:\n", ["C16", "C06"],
+  "seed C16-r8: the loop stops above the requested accuracy, and the convergence warning is tied to max_moments only")
+v("kpm-threshold-as-float", KP, "    while residue > atol:\n", "    atol = float(atol)\n    while residue > atol:\n", [], "same threshold")
 v("kpm-coefficient-sign", KP, "prefactor = -2 / np.sqrt(1 - energy**2)", "prefactor = 2 / np.sqrt(1 - energy**2)", ["C16"])
 v("kpm-zeroth-coefficient-not-halved", KP, "        coef[0] /= 2\n", "", ["C16"])
 v("kpm-recurrence-sign", KP, "2 * hamiltonian @ alpha - alpha_prev, alpha", "2 * hamiltonian @ alpha + alpha_prev, alpha", ["C16"])
